@@ -26,7 +26,7 @@ def scenarios(draw):
     delays = st.sampled_from([0.0, 0.5, 3.0, 7.0])
     handlers = []
     for i in range(draw(st.integers(1, 2))):
-        handlers.append({'kind': 'resume', 'id': f'r{i}', 'deleted': draw(st.sampled_from([None, None, True])),
+        handlers.append({'kind': 'resume', 'id': f'r{i}', 'deleted': draw(st.sampled_from([None, None, True, False])),
                          'script': draw(cl.outcome_scripts(delays, max_len=2, kinds=('ok', 'temp', 'err', 'perm'))), 'backoff': 3.0,
                          'duration': draw(st.sampled_from([0, 0, 1.0]))})
     handlers.append({'kind': 'create', 'id': 'c', 'script': draw(cl.outcome_scripts(delays, max_len=1, kinds=('ok', 'temp'))), 'duration': 0})
